@@ -78,6 +78,17 @@ impl State {
         }
     }
 
+    #[cfg(feature = "verif-hooks")]
+    pub(crate) fn verif_reset(&self) {
+        self.collecting.set(false);
+        #[cfg(feature = "finalization")]
+        self.finalizing.set(false);
+        self.dropping.set(false);
+        self.dropping_list.set(false);
+        self.allocated_bytes.set(0);
+        self.executions_counter.set(0);
+    }
+
     #[inline]
     pub(crate) fn allocated_bytes(&self) -> usize {
         self.allocated_bytes.get()
